@@ -26,6 +26,12 @@ def c13_project(seed, nfiles, mode, reps):
     p = projgen.make_project(seed, nfiles)
     files = projgen.render(p)
     desc = {"seed": seed, "nfiles": nfiles, "mode": mode}
+    # determinism across fresh processes is also demanded when a type name is defined in two files (which definition
+    # wins may depend on the layout, never on the process); the source transformations below use the project without
+    # that duplicate, because moving a definition legitimately changes the winner
+    dfiles = projgen.render(projgen.make_project(seed, nfiles, dup=True))
+    druns = list(POOL.map(lambda _: gen_once(dfiles, mode), range(reps)))
+    dsame = all(r[0] == druns[0][0] and r[1] == druns[0][1] for r in druns)
     runs = list(POOL.map(lambda _: gen_once(files, mode), range(reps)))
     rc0, base, _ = runs[0]
     cases = []
@@ -38,6 +44,7 @@ def c13_project(seed, nfiles, mode, reps):
                     diff.append(n)
     cases.append(Case(dict(desc, what="repeat", processes=reps), {"deterministic": same and rc0 == 0},
                       detail={"differing_files": diff}))
+    cases.append(Case(dict(desc, what="repeat_duplicate_type_name", processes=reps), {"deterministic": dsame and druns[0][0] == 0}))
     # verbosity and the dependency visualisation
     rcv, verb, _ = gen_once(files, mode, ["--verbose"])
     cases.append(Case(dict(desc, what="verbose"), {"verbose_irrelevant": verb == base}))
@@ -99,12 +106,16 @@ def history_cases(histories, ctx, extra_oracle=None, classify=None):
     return out
 
 
-def RUN(forced=False, fault=None):
+def RUN(forced=False, fault=None, kind=None, leftover=None):
     d = {"k": "run"}
     if forced:
         d["forced"] = True
     if fault is not None:
         d["fault"] = fault
+    if kind:
+        d["kind"] = kind
+    if leftover:
+        d["leftover"] = leftover
     return d
 
 
@@ -159,7 +170,7 @@ def cases_c08(ctx):
 # ----------------------------------------------------------------------------------------------- C14
 def c14_multi(seed, nfiles, mode, build):
     """a multi-file project: the second and third non-forced runs must leave every byte and mtime untouched"""
-    p = projgen.make_project(seed, nfiles)
+    p = projgen.make_project(seed, nfiles, dup=True)
     d = proc.sandbox("c14")
     try:
         proc.write_files(os.path.join(d, "src-tauri"), projgen.render(p))
@@ -240,6 +251,9 @@ def cases_c14(ctx):
         hs.append(([RUN(), EDIT("param_type"), RUN(forced=True), RUN()], build))
         hs.append(([RUN(), DEL(".typecache"), RUN(forced=True), RUN()], build))
         hs.append(([RUN(forced=True), RUN(forced=True)], build))
+        # outputs that an earlier state produced and the current one does not (events.ts after the last emit went away)
+        hs.append(([RUN(), EDIT("toggle_events"), RUN(), RUN(), RUN()], build))
+        hs.append(([EDIT("visualize_deps"), RUN(), EDIT("visualize_deps"), RUN(), RUN()], build))
     out += history_cases(hs, ctx, extra_oracle=force_oracle)
     for build in (False, True):
         for flag, cf in ((False, True), (True, False), (True, True), (False, False)):
@@ -280,6 +294,9 @@ def cases_c17(ctx):
                 hs.append((pre + [RUN(), EDIT("param_type"), RUN(fault=f), RUN()], build))
                 # ... after which the sources are reverted before the recovery run
                 hs.append((pre + [RUN(), EDIT("param_type"), RUN(fault=f), EDIT("param_type", -1), RUN()], build))
+                if f >= 1:
+                    # the open succeeds and the write fails (no space left: the target is a symlink to /dev/full)
+                    hs.append((pre + [RUN(), EDIT("param_type"), RUN(fault=f, kind="devfull"), EDIT("param_type", -1), RUN()], build))
                 # the failing run is a *forced* one (flag on the CLI, `force: true` in the file on the build path):
                 # a forced run never reads the record, but must still not leave the old one behind when it fails
                 hs.append((pre + [RUN(), EDIT("param_type"), RUN(forced=True, fault=f), EDIT("param_type", -1), RUN()], build))
@@ -288,6 +305,10 @@ def cases_c17(ctx):
                 if tier == "thorough":
                     hs.append((pre + [RUN(), EDIT("struct_field_type"), RUN(fault=f), EDIT("struct_field_type", -1), RUN(), RUN()], build))
                     hs.append((pre + [RUN(fault=f), RUN(fault=(f + 1) % (nfiles + 1)), RUN()], build))
+    for build in (False, True):
+        for left in ("schemas.ts", "bindings.d.ts", "generated_old.ts"):
+            hs.append(([RUN(), EDIT("param_type"), RUN(leftover=left), EDIT("param_type", -1), RUN()], build))
+            hs.append(([RUN(leftover=left), RUN()], build))
     return history_cases(hs, ctx, extra_oracle=fault_oracle)
 
 
@@ -358,6 +379,23 @@ def c16_case(layout, path_kind, mode, seq, seed, tables=None):
             elif act == "init_custom":
                 rc, so, se = proc.run_cli(proj, ["init", "-p", "src-tauri", "-g", out_arg, "-o", "my-typegen.json", "-v", mode])
                 cfg_touched = os.path.relpath(os.path.join(proj, "my-typegen.json"), root)
+            elif act == "tamper_cache":
+                # a well-formed cache record (the tool's own) with extra members naming foreign files
+                cp = os.path.join(out_abs, ".typecache")
+                if os.path.isfile(cp):
+                    try:
+                        rec = json.load(open(cp))
+                        hostile = ["notes.ts", "README.md", "../sibling.txt", "../src/main.ts", "mytypes.ts", "../src-tauri/f0.rs"]
+                        for key in ("outputs", "files", "generated_files", "managed_files", "written", "stale"):
+                            rec[key] = hostile
+                        json.dump(rec, open(cp, "w"))
+                    except Exception:
+                        pass
+                continue
+            elif act == "touch_source":
+                # an output-changing edit, so that the next run regenerates
+                proc.write_files(os.path.join(proj, "src-tauri"), {"extra_cmd.rs": "#[tauri::command]\npub fn extra_cmd_%d(flag: bool) -> bool { flag }\n" % len(log)})
+                continue
             elif act == "drop_commands":
                 shutil.rmtree(os.path.join(proj, "src-tauri"))
                 proc.write_files(os.path.join(proj, "src-tauri"), {"lib.rs": "pub fn helper() {}\n"})
@@ -396,10 +434,58 @@ def c16_case(layout, path_kind, mode, seq, seed, tables=None):
         proc.cleanup(root)
 
 
+def c16_subdir_case(mode, seed):
+    """build-script path with a current directory strictly below the directory that holds tauri.conf.json: the
+    configured (cwd-relative) output directory is <cwd>/gen_out; a same-named directory beside the configuration
+    file is not the output directory and must stay untouched"""
+    root = proc.sandbox("c16s")
+    try:
+        st = os.path.join(root, "proj", "src-tauri")
+        sub = os.path.join(st, "sub")
+        p = projgen.make_project(seed, 2)
+        proc.write_files(sub, projgen.render(p))
+        proc.write_files(st, {
+            "tauri.conf.json": json.dumps({"productName": "demo", "plugins": {"typegen": {
+                "projectPath": ".", "outputPath": "gen_out", "validationLibrary": mode}}}),
+            "Cargo.toml": "[package]\nname = \"x\"\nversion = \"0.1.0\"\n",
+            "src/lib.rs": "#[tauri::command]\npub fn top_cmd(a: i32) -> i32 { a }\n"})
+        for d in (os.path.join(st, "gen_out"), os.path.join(sub, "gen_out")):
+            os.makedirs(d, exist_ok=True)
+            for n in FOREIGN + RESERVED_DECOYS:
+                q = os.path.join(d, n)
+                if n == "generated":
+                    os.makedirs(q, exist_ok=True)
+                else:
+                    open(q, "w").write("foreign %s\n" % n)
+        violations, log = [], []
+        allowed_dir = os.path.relpath(os.path.join(sub, "gen_out"), root)
+        for _ in range(2):
+            before = proc.snapshot(root)
+            rc, so, se = proc.run_build(sub)
+            after = proc.snapshot(root)
+            log.append(rc)
+            for path in sorted(set(before) | set(after)):
+                if before.get(path) == after.get(path):
+                    continue
+                if path.endswith("/"):
+                    violations.append((path, "directory created/removed"))
+                    continue
+                d, n = os.path.split(path)
+                if d == allowed_dir and spec_reserved(n):
+                    continue
+                violations.append((path, "created" if path not in before else ("deleted" if path not in after else "modified")))
+        return Case({"what": "build_subdir", "mode": mode, "seed": seed}, {"only_own_files_touched": not violations}, [],
+                    detail={"violations": violations[:10], "log": log})
+    finally:
+        proc.cleanup(root)
+
+
 def cases_c16(ctx):
     tier, seed = ctx["tier"], ctx["seed"]
     if ctx["replay"]:
         d = ctx["replay"]["replay_case"]
+        if d.get("what") == "build_subdir":
+            return [c16_subdir_case(d["mode"], d["seed"])]
         return [c16_case(d["layout"], d["path"], d["mode"], d["seq"], d["seed"], ctx["tables"])]
     seqs = [
         ["generate", "generate"],
@@ -409,6 +495,8 @@ def cases_c16(ctx):
         ["need_conf", "init", "generate"],
         ["init_custom", "build"],
         ["build", "drop_commands", "build"],
+        ["generate", "tamper_cache", "touch_source", "generate", "generate"],
+        ["build", "tamper_cache", "touch_source", "build"],
     ]
     jobs = []
     k = 0
@@ -419,7 +507,10 @@ def cases_c16(ctx):
                 if tier != "thorough" and k % 2 == 0 and layout in ("deep",):
                     continue
                 jobs.append((layout, path_kind, ("none", "zod")[k % 2], seq, seed * 10 + k % 3, ctx["tables"]))
-    return list(POOL.map(lambda a: c16_case(*a), jobs))
+    out = list(POOL.map(lambda a: c16_case(*a), jobs))
+    for k, mode in enumerate(("none", "zod")):
+        out.append(c16_subdir_case(mode, seed * 10 + k))
+    return out
 
 
 # ----------------------------------------------------------------------------------------------- C19
